@@ -245,6 +245,30 @@ def run(repo, rep, tier):
                                             f"override what the record provides: a field named like a pre-loaded name (e, pi, gamma, ...) evaluates to "
                                             f"the constant/function instead of the record's value, so the string quantity differs from the equivalent "
                                             f"Python function on dict records", stmt=f"namespace precedence: {norm(bad)[:50]}")
+    # the single free variable of a string expression on a bare datum: every name of the code object that the namespace does not
+    # provide - nothing else may be taken out (a datum variable called like a builtin, `sum`, `int`, ..., is still the variable)
+    for inner in ast.walk(uc.node):
+        if not (isinstance(inner, ast.FunctionDef) and inner is not uc.node):
+            continue
+        evals = [cl for cl in ast.walk(inner) if isinstance(cl, ast.Call) and isinstance(cl.func, ast.Name) and cl.func.id == "eval" and len(cl.args) >= 2]
+        if not evals or not isinstance(evals[0].args[1], ast.Name):
+            continue
+        nsname = evals[0].args[1].id
+        for st in ast.walk(inner):
+            if isinstance(st, ast.Assign) and any("co_names" in ast.unparse(x) for x in ast.walk(st.value) if isinstance(x, ast.Attribute)):
+                try:
+                    got, atoms = free_variable_set(st.value, nsname)
+                except _NoSetAlgebra:
+                    continue
+                want = frozenset(r for r in got[1] if r[0] and not r[1])
+                ok = got[0] == want
+                r4.ob(ok, f"free variable discovery `{ast.unparse(st.value)[:60]}` == co_names - namespace")
+                if not ok:
+                    extra = [a for a in atoms[2:]]
+                    rep.finding("R17.4", uc, st, f"the free variable of a string expression is discovered as `{ast.unparse(st.value)[:90]}`, which is not "
+                                f"`names of the code object minus names the namespace provides`" + (f" (it also involves {extra})" if extra else "") +
+                                ": a datum variable whose name is in the additional set is never bound to the datum, so the expression evaluates "
+                                "with another object (or raises) where the equivalent Python function works", stmt="free variable discovery")
     rets = [n for n in walk_local_stmt(uc.node) if isinstance(n, ast.Return) and n.value is not None and isinstance(n.value, ast.Call)
             and ast.unparse(n.value.func) == f"{sn}.fcn"]
     a = uc.node.args
@@ -253,6 +277,67 @@ def run(repo, rep, tier):
     r4.ob(ok, "UserFcn.__call__ returns self.fcn(*args, **kwds)")
     if not ok:
         rep.finding("R17.4", uc, uc.node, "UserFcn.__call__ does not return `self.fcn(*args, **kwds)`", stmt="pass-through call")
+
+
+class _NoSetAlgebra(Exception):
+    pass
+
+
+def free_variable_set(e, nsname):
+    """Evaluate a set expression over the atoms N (co_names of the code object), K (keys of the eval namespace) and any other
+    set-valued sub-expression: ((regions of the result, all regions), atom texts).  Regions are membership tuples."""
+    atoms = ["N", "K"]
+
+    def atom_of(x):
+        t = ast.unparse(x)
+        if "co_names" in t:
+            return 0
+        if t in (nsname, f"{nsname}.keys()"):
+            return 1
+        if t not in atoms:
+            atoms.append(t)
+        return atoms.index(t)
+
+    # first pass: collect atoms
+    def collect(x):
+        if isinstance(x, ast.Call) and isinstance(x.func, ast.Name) and x.func.id in ("set", "frozenset", "list", "sorted", "tuple") and len(x.args) == 1:
+            return collect(x.args[0])
+        if isinstance(x, ast.BinOp) and isinstance(x.op, (ast.Sub, ast.BitOr, ast.BitAnd)):
+            collect(x.left)
+            collect(x.right)
+            return
+        if isinstance(x, (ast.ListComp, ast.SetComp, ast.GeneratorExp)) and len(x.generators) == 1 and isinstance(x.generators[0].target, ast.Name) \
+                and isinstance(x.elt, ast.Name) and x.elt.id == x.generators[0].target.id:
+            collect(x.generators[0].iter)
+            for c0 in x.generators[0].ifs:
+                if isinstance(c0, ast.Compare) and len(c0.ops) == 1 and isinstance(c0.ops[0], (ast.In, ast.NotIn)):
+                    collect(c0.comparators[0])
+                else:
+                    raise _NoSetAlgebra()
+            return
+        if isinstance(x, (ast.Name, ast.Attribute, ast.Call)):
+            atom_of(x)
+            return
+        raise _NoSetAlgebra()
+    collect(e)
+    import itertools
+    regions = frozenset(itertools.product((0, 1), repeat=len(atoms)))
+
+    def ev(x):
+        if isinstance(x, ast.Call) and isinstance(x.func, ast.Name) and x.func.id in ("set", "frozenset", "list", "sorted", "tuple") and len(x.args) == 1:
+            return ev(x.args[0])
+        if isinstance(x, ast.BinOp):
+            l, r = ev(x.left), ev(x.right)
+            return l - r if isinstance(x.op, ast.Sub) else (l | r if isinstance(x.op, ast.BitOr) else l & r)
+        if isinstance(x, (ast.ListComp, ast.SetComp, ast.GeneratorExp)):
+            cur = ev(x.generators[0].iter)
+            for c0 in x.generators[0].ifs:
+                other = ev(c0.comparators[0])
+                cur = cur & other if isinstance(c0.ops[0], ast.In) else cur - other
+            return cur
+        i = atom_of(x)
+        return frozenset(r for r in regions if r[i])
+    return (ev(e), regions), atoms
 
 
 KINDS = ("CachedFcn", "UserFcn", "bare")       # a CachedFcn instance, a plain UserFcn instance, anything else
